@@ -137,7 +137,13 @@ fn worker(case: Arc<Case>, i: usize, seed: u64, pause_pm: u64, cs_work: u64, mir
                 for k in 0..rng.below(cs_work + 1) {
                     ptr::write_volatile(&raw mut (*p).scratch[(k % 4) as usize], c ^ k);
                 }
-                if cs_work > 0 && rng.chance(1, 40) {
+                // Holding the lock across a yield is what sends the other lockers to sleep.
+                if miri {
+                    // Several yields: long enough for *all* other lockers to reach futex_wait.
+                    for _ in 0..rng.below(6) {
+                        std::thread::yield_now();
+                    }
+                } else if cs_work > 0 && rng.chance(1, 40) {
                     std::thread::yield_now();
                 }
                 ptr::write_volatile(&raw mut (*p).count, c.wrapping_add(1));
@@ -294,12 +300,12 @@ fn main() -> ExitCode {
 
     verif::set_pause_hook(Some(pause_hook));
     let mut rng = Rng::new(args.seed).fork(43);
-    let cases = if miri { 2 } else { args.n(300, 6000) };
+    let cases = if miri { 3 } else { args.n(300, 6000) };
     let watchdog = Duration::from_secs(args.get_u64("case_watchdog_s", 60));
     let mut stuck = false;
     for ci in 0..cases {
         let cfg = if miri {
-            CaseCfg { threads: 2 + (ci as usize + args.seed as usize) % 2, n: args.n(1200, 3000), pause_pm: 300, cs_work: 2 }
+            CaseCfg { threads: [3, 2, 4][(ci as usize + args.seed as usize) % 3], n: args.n(1200, 3000), pause_pm: 300, cs_work: 2 }
         } else {
             CaseCfg {
                 threads: *rng.pick(&[2usize, 2, 3, 3, 4, 6, 8, 16]),
